@@ -663,3 +663,42 @@ neutral("c02-guard-as-if-else", ["C02", "C05", "C06"], "builtins.py",
         "                if invert:\n                    if best < item:\n                        best = item\n                elif item < best:\n                    best = item\n")
 neutral("c02-max-gt-operator", ["C02"], "builtins.py",
         "                if (best < item) if invert else (item < best):\n", "                if (item > best) if invert else (best > item):\n")
+
+# --------------------------------------------------------------------------- C01
+mutant("c01-merge-unfix-position", "C01", "heapq.py",
+       "            (itr, idx)\n", "            (itr, idx if not reverse else -idx)\n", rule="R01.1", unit="heapq.merge")
+mutant("c01-merge-no-position", "C01", "heapq.py",
+       "            (itr, idx)\n", "            (itr, 0)\n", rule="R01.1")
+mutant("c01-keyiter-eq-identity", "C01", "heapq.py",
+       "    def __eq__(self, other: _KeyIter[LT]) -> bool:  # type: ignore[override]\n        return not (self.head_key < other.head_key or other.head_key < self.head_key)\n",
+       "", rule="R01.1")
+mutant("c01-keyiter-lt-ignores-reverse", "C01", "heapq.py",
+       "        return self.reverse ^ (self.head_key < other.head_key)\n",
+       "        return self.head_key < other.head_key\n", rule="R01.1")
+mutant("c01-keyiter-lt-swapped", "C01", "heapq.py",
+       "        return self.reverse ^ (self.head_key < other.head_key)\n",
+       "        return self.reverse ^ (other.head_key < self.head_key)\n", rule="R01.1")
+mutant("c01-zip-strict-wrong-exception", "C01", "builtins.py",
+       "            raise ValueError(\n                f\"zip() argument {tried + 1} is shorter than argument{plural}{tried}\"\n            ) from None\n",
+       "            raise IndexError(\n                f\"zip() argument {tried + 1} is shorter than argument{plural}{tried}\"\n            ) from None\n",
+       rule="R01.2")
+mutant("c01-batched-raises-runtime", "C01", "itertools.py",
+       '        raise ValueError("n must be at least one")\n', '        raise RuntimeError("n must be at least one")\n', rule="R01.2")
+mutant("c01-cycle-yields-copy", "C01", "itertools.py",
+       "        for item in buffer:\n            yield item\n", "        for item in buffer:\n            yield type(item)(item)\n",
+       rule="R01.3", unit="itertools.cycle")
+mutant("c01-enumerate-str-item", "C01", "builtins.py",
+       "            yield count, item\n", "            yield count, (item, count)[0] if count else str(item)\n", rule="R01.3")
+mutant("c01-pairwise-arith", "C01", "itertools.py",
+       "            yield prev, current  # type: ignore\n", "            yield prev, current + 0  # type: ignore\n", rule="R01.3")
+mutant("c01-map-yields-args", "C01", "builtins.py",
+       "            result = function(*args)\n            yield await result\n",
+       "            result = function(*args)\n            await result\n            yield args\n", rule="R01.3")
+mutant("c01-zip-reversed-sources", "C01", "builtins.py",
+       "            yield (*[await anext(it) for it in aiters],)\n",
+       "            yield (*[await anext(it) for it in reversed(aiters)],)[::-1]\n", rule="R01")
+mutant("c01-zip-longest-reversed", "C01", "itertools.py",
+       "    async_iters = [aiter(it) for it in iterables]\n", "    async_iters = [aiter(it) for it in iterables[::-1]]\n",
+       rule="R01.4")
+neutral("c01-batched-tuple-display", ["C01", "C05", "C20"], "itertools.py",
+        "                yield tuple(batch)\n        except StopAsyncIteration:", "                yield (*batch,)\n        except StopAsyncIteration:")
